@@ -47,9 +47,9 @@ func coqStr(b *strings.Builder, s string) {
 
 func coqZ(n int64) string {
 	if n < 0 {
-		return fmt.Sprintf("(%d)", n)
+		return fmt.Sprintf("(%d)%%Z", n)
 	}
-	return fmt.Sprintf("%d", n)
+	return fmt.Sprintf("%d%%Z", n)
 }
 
 func writeJV(b *strings.Builder, v interface{}) {
